@@ -95,6 +95,9 @@ pub struct RunOut {
     pub harness_error: Option<String>,
     /// strict replay only: the recorded decision list ended before the scenario did
     pub schedule_exhausted: bool,
+    /// a thread is stuck inside the library for good; the process should not run further scenarios
+    #[serde(default)]
+    pub hung: bool,
 }
 
 #[derive(Clone, Debug)]
@@ -126,6 +129,8 @@ struct ThState {
     blocked: bool,
     /// kernel thread id (used only by the watchdog to see whether the baton holder sleeps)
     tid: i64,
+    /// (step, rep, op index) of the operation the thread is executing right now
+    current: Option<(usize, u32, u32)>,
 }
 
 struct State {
@@ -144,6 +149,8 @@ struct State {
     trace: Vec<String>,
     tracing: bool,
     abort: bool,
+    /// a simulated thread is stuck inside the library for good: nobody is joined any more
+    hung: bool,
     exhausted: bool,
     /// PCT: priority per thread (higher runs first) and the scheduling-point indices at which the
     /// running thread's priority drops below everyone else's
@@ -570,6 +577,7 @@ fn sim_thread_inner(sh: Arc<Shared>, me: usize) {
             if inst {
                 SUPPRESS.with(|s| s.set(true));
             }
+            sh.st.lock().unwrap_or_else(|e| e.into_inner()).th[me].current = Some((i, rep, step.op));
             let got = exec(op, &sh.env);
             if inst {
                 SUPPRESS.with(|s| s.set(false));
@@ -618,7 +626,7 @@ pub fn run(scen: &Scenario, schedule: Schedule, tracing: bool) -> RunOut {
     let st = State {
         rng: Rng::new(derive(scen.seed ^ scen.sched_salt.rotate_left(32), 0x73636864)),
         list,
-        th: (0..n).map(|_| ThState { life: Life::NotStarted, handle: None, join: None, view: Foot::default(), last_foot: None, blocked: false, tid: 0 }).collect(),
+        th: (0..n).map(|_| ThState { life: Life::NotStarted, handle: None, join: None, view: Foot::default(), last_foot: None, blocked: false, tid: 0, current: None }).collect(),
         ops_done: 0,
         decisions: Vec::new(),
         log: H64::new(),
@@ -631,6 +639,7 @@ pub fn run(scen: &Scenario, schedule: Schedule, tracing: bool) -> RunOut {
         trace: Vec::new(),
         tracing,
         abort: false,
+        hung: false,
         exhausted: false,
         prio: Vec::new(),
         change_points: Vec::new(),
@@ -715,8 +724,37 @@ pub fn run(scen: &Scenario, schedule: Schedule, tracing: bool) -> RunOut {
                 drop(st);
             }
             if idle > Duration::from_secs(stall_secs()) {
-                eprintln!("STALL seed={} (no scheduling progress for {} s)", scen.seed, stall_secs());
-                std::process::exit(3);
+                if scen.yield_mask != 0 {
+                    // with yield sites on, a stall is treated as the harness's doing: the batch
+                    // re-runs the range with yield sites off before anything is concluded
+                    eprintln!("STALL seed={} (no scheduling progress for {} s)", scen.seed, stall_secs());
+                    std::process::exit(3);
+                }
+                // I5: threads switch only between whole operations here, nothing of the harness
+                // is in the way, and still an operation does not return
+                let holder = sh.baton.load(Ordering::Acquire);
+                let mut st = sh.st.lock().unwrap_or_else(|e| e.into_inner());
+                if st.violation.is_none() && holder != MAIN && holder < st.th.len() {
+                    if let Some((step, rep, op_ix)) = st.th[holder].current {
+                        let op = &scen.ops[op_ix as usize];
+                        let at = st.decisions.len();
+                        st.violation = Some(Violation {
+                            invariant: "I5".into(),
+                            thread: holder,
+                            step,
+                            rep,
+                            op: op.clone(),
+                            op_text: op.describe(),
+                            got: Outcome::Err(format!("<operation did not return within {} s; no other simulated thread could run>", stall_secs())),
+                            expected: scen.expected[op_ix as usize].clone(),
+                            reference: "pristine-process".into(),
+                            at_decision: at,
+                        });
+                    }
+                }
+                st.hung = true;
+                st.abort = true;
+                break;
             }
         }
     }
@@ -724,7 +762,10 @@ pub fn run(scen: &Scenario, schedule: Schedule, tracing: bool) -> RunOut {
         let mut st = sh.st.lock().unwrap_or_else(|e| e.into_inner());
         st.th.iter_mut().filter_map(|t| t.join.take()).collect()
     };
-    let broken = sh.st.lock().unwrap_or_else(|e| e.into_inner()).harness_error.is_some();
+    let broken = {
+        let st = sh.st.lock().unwrap_or_else(|e| e.into_inner());
+        st.harness_error.is_some() || st.hung
+    };
     for j in joins {
         // after a harness failure other simulated threads may still be parked: do not wait for them
         if !broken {
@@ -746,6 +787,7 @@ pub fn run(scen: &Scenario, schedule: Schedule, tracing: bool) -> RunOut {
         trace: std::mem::take(&mut st.trace),
         harness_error: st.harness_error.clone(),
         schedule_exhausted: st.exhausted,
+        hung: st.hung,
     }
 }
 
